@@ -309,8 +309,11 @@ impl GenerationPass for AvailableValuePass {
                 changed |= node.set_reg_values_out(out_reg_n);
                 changed |= node.set_memory_values_out(out_memory_n);
 
-                // Add node to visited
-                visited.insert(Rc::clone(&node));
+                // Add node to visited. A node visited for the first time may be a
+                // predecessor that an earlier node of this sweep left out of its
+                // in[n]: that is a change too, so another sweep is needed even when
+                // no value changed (the values may be left over from an earlier run).
+                changed |= visited.insert(Rc::clone(&node));
             }
         }
         Ok(())
